@@ -32,6 +32,7 @@ ASSUMPTIONS = [
     'when the creation date is omitted the loaded date must lie inside the '
     'wall-clock window of the write call (only time-related oracle)',
 ]
+ANCHORS = ['Table.to_hdf5', 'Table.from_hdf5', 'general_formatter', 'vlen_list_of_str_formatter', 'general_parser', 'vlen_list_of_str_parser', 'load_table', 'parse_biom_table', 'save_table', 'biom_open']
 REQUIRED = ['format_fs_writes', 'parse_fs_reads', 'loader_load_table', 'loader_parse_table', 'loader_from_hdf5',
             'loader_from_hdf5_observation_view', 'files_written',
             'layout_csc_seen', 'layout_unsorted_seen', 'nonascii_ids',
